@@ -74,4 +74,11 @@ MODULES = {
     'util': dict(file='pyctr/util.py', kernels=[
         dict(py='roundup', coq='roundup', args=[('offset', INT), ('alignment', INT)], ret=INT),
     ]),
+    'ncch': dict(file='pyctr/type/ncch.py', kernels=[
+        dict(py='NCCHFlags.from_bytes', coq='ncchflags_from_bytes', args=[('flag_bytes', SEQ)]),
+        dict(py='NCCHReader.__init__', coq='region_iv', kwarg_of=('NCCHRegion', 'iv'),
+             args=[('partition_id_int', INT), ('section', INT)], ret=INT),
+        dict(py='NCCHReader.__init__', coq='region_offset', expr_of='offset', args=[('starting_unit', INT)], ret=INT),
+        dict(py='NCCHReader.__init__', coq='region_size', expr_of='size', args=[('units', INT)], ret=INT),
+    ]),
 }
